@@ -64,7 +64,7 @@ def check(rng, deep):
     m = H.load()
     out, n = [], 0
     nr = np.random.default_rng(7)
-    for name, blk, calib in (('sim', m.sim, m.SIM_CALIB), ('labor', m.labor, m.LAB_CALIB), ('twoasset', m.twoasset, m.TWO_CALIB), ('pair_het', m.pair_het, m.PAIR_CALIB)):
+    for name, blk, calib in (('sim_shipped', m.sim_shipped, m.SIM_SHIPPED_CALIB), ('sim', m.sim, m.SIM_CALIB), ('labor', m.labor, m.LAB_CALIB), ('twoasset', m.twoasset, m.TWO_CALIB), ('pair_het', m.pair_het, m.PAIR_CALIB)):
         for rep in range(1 if not deep else 4):
             c = dict(calib)
             if rep:
